@@ -43,8 +43,14 @@ def main():
     defs = []
 
     def nat(name, rel, pattern, default, group=1, doc=""):
+        # `pattern` may be a list: the same constant written in other common ways (a named constant, a `let`, a
+        # `clamp` instead of `max().min()`); the first pattern that matches is taken
         src = read(repo, rel)
-        m = re.search(pattern, src, flags=re.S)
+        m = None
+        for pat in (pattern if isinstance(pattern, list) else [pattern]):
+            m = re.search(pat, src, flags=re.S)
+            if m:
+                break
         val = default
         if m:
             try:
@@ -74,13 +80,13 @@ def main():
     P = "src/piece_length_picker.rs"
     nat("pickerDiv", P, r"exponent\s*/\s*(\d+)\s*\+\s*\d+", 2, doc="exponent divisor")
     nat("pickerOff", P, r"exponent\s*/\s*\d+\s*\+\s*(\d+)", 4, doc="exponent offset")
-    nat("pickerMinKiB", P, r"\.max\(\s*Bytes::kib\(\)\s*\*\s*(\d+)\s*\)", 16, doc="lower clamp in KiB")
-    nat("pickerMaxMiB", P, r"\.min\(\s*Bytes::mib\(\)\s*\*\s*(\d+)\s*\)", 16, doc="upper clamp in MiB")
+    nat("pickerMinKiB", P, [r"\.max\(\s*Bytes::kib\(\)\s*\*\s*(\d+)\s*\)", r"(?:let|const)\s+(?:min|MIN)\w*\s*(?::\s*Bytes\s*)?=\s*Bytes::kib\(\)\s*\*\s*(\d+)", r"clamp\(\s*Bytes::kib\(\)\s*\*\s*(\d+)"], 16, doc="lower clamp in KiB")
+    nat("pickerMaxMiB", P, [r"\.min\(\s*Bytes::mib\(\)\s*\*\s*(\d+)\s*\)", r"(?:let|const)\s+(?:max|MAX)\w*\s*(?::\s*Bytes\s*)?=\s*Bytes::mib\(\)\s*\*\s*(\d+)", r"clamp\([^,]*,\s*Bytes::mib\(\)\s*\*\s*(\d+)"], 16, doc="upper clamp in MiB")
     nat("tableFrom", "src/subcommand/torrent/piece_length.rs", r"for\s+i\s+in\s+(\d+)\s*\.\.\s*\d+", 14, doc="first table exponent")
     nat("tableTo", "src/subcommand/torrent/piece_length.rs", r"for\s+i\s+in\s+\d+\s*\.\.\s*(\d+)", 51, doc="table exponent bound (exclusive)")
     # ---- C14 lints
     C = "src/subcommand/torrent/create.rs"
-    nat("smallPieceThreshold", C, r"Lint::SmallPieceLength\)\s*&&\s*content\.piece_length\.count\(\)\s*<\s*([0-9_]+\s*\*\s*[0-9_]+|[0-9_]+)", 16384, doc="small-piece-length threshold")
+    nat("smallPieceThreshold", C, [r"Lint::SmallPieceLength\)\s*&&\s*content\.piece_length\.count\(\)\s*<\s*([0-9_]+\s*\*\s*[0-9_]+|[0-9_]+)", r"const\s+\w*SMALL\w*\s*:\s*u64\s*=\s*([0-9_]+\s*\*\s*[0-9_]+|[0-9_]+)\s*;", r"<\s*([0-9_]+\s*\*\s*[0-9_]+|[0-9_]+)\s*&&\s*linter\.is_denied\(Lint::SmallPieceLength\)"], 16384, doc="small-piece-length threshold")
     nat("stdinPieceKiB", "src/subcommand/torrent/create/create_content.rs", r"unwrap_or\(\s*Bytes::kib\(\)\s*\*\s*(\d+)\s*\)", 256, doc="default stdin piece length in KiB")
     strlist("lintNames", "src/lint.rs", r"enum\s+Lint\s*\{(.*?)\}", [], doc="(variant identifiers are not strings; see lintVariants)")
     src = read(repo, "src/lint.rs")
@@ -120,6 +126,19 @@ def main():
             if val is not None:
                 for n in names:
                     table.append((n, val))
+    if not table:
+        # the same table written as a slice of (name, multiplier) pairs
+        mt = re.search(r":\s*&\[\(&str,\s*u64\)\]\s*=\s*&\[(.*?)\];", src, flags=re.S)
+        if mt:
+            for nm, rhs in re.findall(r'\(\s*"([^"]*)"\s*,\s*([A-Za-z0-9_]+)\s*\)', mt.group(1)):
+                val = consts.get(rhs)
+                if val is None:
+                    try:
+                        val = nat_expr(rhs)
+                    except Exception:
+                        val = None
+                if val is not None:
+                    table.append((nm, val))
     if table:
         status["extracted"].append("suffixTable")
     else:
@@ -129,7 +148,7 @@ def main():
         return "[" + ", ".join("'" + c + "'" for c in n) + "]"
     defs.append("/-- parse suffix table (lower-case suffix as characters, multiplier): `src/bytes.rs` -/\ndef suffixTable : List (List Char × Nat) := [" + ", ".join(f"({chars(n)}, {v})" for n, v in table) + "]")
     strlist("displaySuffixes", B, r"DISPLAY_SUFFIXES\s*:\s*&\[&str\]\s*=\s*&\[(.*?)\]", ["KiB", "MiB", "GiB", "TiB", "PiB", "EiB"], doc="display suffixes")
-    nat("displayStep", B, r"while\s+value\s*>=\s*(\d+)\.0", 1024, doc="display division step")
+    nat("displayStep", B, [r"while\s+value\s*>=\s*(\d+)\.0", r"const\s+\w*STEP\w*\s*:\s*f64\s*=\s*(\d+)\.0", r"value\s*/=\s*(\d+)\.0"], 1024, doc="display division step")
 
     # ---- C06 walker
     src = read(repo, "src/walker.rs")
@@ -163,6 +182,14 @@ def main():
                 ok = False
         if not ok:
             keep = None
+    if keep is None:
+        # the other common way of writing the same set: a predicate made of `is_ascii_alphanumeric()` (and/or the
+        # digit/alphabetic tests) and a byte-string literal with `.contains(&byte)`
+        body = re.search(r"fn\s+push_value.*?\n  \}", src, flags=re.S)
+        lit = re.search(r'b"((?:[^"\\]|\\.)*)"\s*\.contains\(\s*&\s*\*?\s*byte\s*\)', src)
+        if lit and ("is_ascii_alphanumeric()" in src) and body is not None:
+            text = bytes(lit.group(1), "utf-8").decode("unicode_escape").encode("latin-1")
+            keep = set(text) | set(b"ABCDEFGHIJKLMNOPQRSTUVWXYZabcdefghijklmnopqrstuvwxyz0123456789")
     if keep is not None:
         status["extracted"].append("magnetKeep")
     else:
@@ -180,6 +207,20 @@ def main():
     nat("rxBufLen", "src/tracker/client.rs", r"RX_BUF_LEN\s*:\s*usize\s*=\s*(\d+)", 8192, doc="announce receive buffer")
     nat("strideV4", "src/tracker/client.rs", r"let\s+stride\s*=\s*if\s+is_ipv6\s*\{\s*\d+\s*\}\s*else\s*\{\s*(\d+)\s*\}", 6, doc="compact IPv4 record")
     nat("strideV6", "src/tracker/client.rs", r"let\s+stride\s*=\s*if\s+is_ipv6\s*\{\s*(\d+)\s*\}", 18, doc="compact IPv6 record")
+    if "strideV4" in status["fallback"] or "strideV6" in status["fallback"]:
+        # the record length written as address length plus port length
+        srcc = read(repo, "src/tracker/client.rs")
+        ml = re.search(r"let\s+\w*len\w*\s*=\s*if\s+is_ipv6\s*\{\s*(\d+)\s*\}\s*else\s*\{\s*(\d+)\s*\}", srcc)
+        mp = re.search(r"const\s+PORT\w*\s*:\s*usize\s*=\s*(\d+)", srcc)
+        if ml and mp:
+            v6, v4, pl = int(ml.group(1)), int(ml.group(2)), int(mp.group(1))
+            for nm, val in [("strideV4", v4 + pl), ("strideV6", v6 + pl)]:
+                if nm in status["fallback"]:
+                    status["fallback"].remove(nm)
+                    status["extracted"].append(nm)
+                    for i, d in enumerate(defs):
+                        if f"def {nm} : Nat" in d:
+                            defs[i] = re.sub(r":= \d+", f":= {val}", d)
     src = read(repo, "src/tracker/announce.rs")
     def field_const(name, default):
         m = re.search(name + r"\s*:\s*(u64::MAX|u32::MAX|0x[0-9a-fA-F_]+|\d+)\s*,", src)
